@@ -227,6 +227,36 @@ def run_model(cases_text, timeout=1200):
     return p.stdout.decode()
 
 
+def run_model_parallel(cases_text, nparts=12, timeout=1800):
+    """The model side is pure: run it on [nparts] slices of the cases at once (round robin, so that heavy cases are
+    spread over the workers).  Output order differs from input order; parse_output keys by case id."""
+    cases = split_cases(cases_text)
+    if len(cases) < 2 * nparts:
+        return run_model(cases_text, timeout)
+    procs = []
+    for k in range(nparts):
+        part = "".join(t for _, t in cases[k::nparts])
+        pr = subprocess.Popen([os.path.join(BUILD, "ml", "modeldrv")], stdin=subprocess.PIPE, stdout=subprocess.PIPE, stderr=subprocess.PIPE)
+        procs.append((pr, part))
+    import threading
+    outs = [None] * nparts
+    errs = [None] * nparts
+
+    def feed(k):
+        pr, part = procs[k]
+        o, e = pr.communicate(part.encode(), timeout=timeout)
+        outs[k], errs[k] = o.decode(), (pr.returncode, e.decode())
+    ths = [threading.Thread(target=feed, args=(k,)) for k in range(nparts)]
+    for t in ths:
+        t.start()
+    for t in ths:
+        t.join()
+    for rc, e in errs:
+        if rc != 0:
+            raise RuntimeError("model driver failed: " + e[-2000:])
+    return "".join(outs)
+
+
 def gen_cases(profile, seed, n, kinds="01", modes="0", extra=()):
     p = subprocess.run([os.path.join(BUILD, "harness"), "gen", "-profile", profile, "-seed", str(seed), "-n", str(n),
                         "-kinds", kinds, "-modes", modes] + list(extra), stdout=subprocess.PIPE, check=True)
